@@ -278,7 +278,7 @@ impl System for Sys {
                     obs: 0,
                     nontrivial: false,
                     facts: 0,
-                    impl_facts: 0,
+                    impl_facts: 0, aux: 0,
                 }
             }
         };
@@ -326,7 +326,7 @@ impl System for Sys {
             }
             _ => 0,
         };
-        Outcome { key, enabled, violation, obs, nontrivial, facts, impl_facts: 0 }
+        Outcome { key, enabled, violation, obs, nontrivial, facts, impl_facts: 0 , aux: 0}
     }
     fn trace(&self, path: &[Call]) -> Value {
         let (r, _) = self.build(path);
